@@ -35,6 +35,9 @@ type params struct {
 	// blocks) that long, so periodic reports fall into moments where the modem holds more bytes
 	// (message + framing) than message bytes have been written.
 	TxHoldMS int `json:"tx_hold_ms,omitempty"`
+	// ResumeAt > 0: the "resume" leg - the station under test sends to the reference peer, which
+	// answers the proposal with an offset request (!n / An): the transfer resumes at that offset.
+	ResumeAt int `json:"resume_at,omitempty"`
 }
 
 var Check = &vrt.Check{
@@ -102,6 +105,12 @@ func plan(seed int64, tier string) []vrt.Case {
 			cs = append(cs, vrt.Case{ID: fmt.Sprintf("s%d-r%d", i, rep), Params: vrt.MustParams(params{Seed: seed, Index: i, DelayMS: s.delay, Size: s.size, NMsgs: s.n, Modem: s.modem, Rep: rep, TxDelayMS: s.tx, UpdDelayMS: s.upd, TxHoldMS: s.hold}), TimeoutS: 600})
 		}
 	}
+	// resumed transfers (offset requests by the remote), paced so that periodic reports happen
+	for i, at := range []int{1, 125, 1000, 2500} {
+		for rep := 0; rep < reps; rep++ {
+			cs = append(cs, vrt.Case{ID: fmt.Sprintf("resume%d-r%d", at, rep), Params: vrt.MustParams(params{Seed: seed, Index: 1000 + i, DelayMS: []int{0, 40}[rep%2], Size: 3600, NMsgs: 2, Rep: rep, ResumeAt: at}), TimeoutS: 600})
+		}
+	}
 	return cs
 }
 
@@ -110,14 +119,23 @@ type recorder struct {
 	mu    sync.Mutex
 	log   []fbb.Status
 	delay time.Duration
+	sink  int
 }
 
 func (r *recorder) UpdateStatus(s fbb.Status) {
+	// read what a progress display reads (the race detector watches these reads)
+	seen := 0
+	for _, p := range []*fbb.Proposal{s.Sending, s.Receiving} {
+		if p != nil {
+			seen += len(p.Title()) + len(p.MID()) + p.Size() + p.CompressedSize()
+		}
+	}
 	if r.delay > 0 && !s.Done {
 		time.Sleep(r.delay) // a slow consumer of periodic reports (the report is logged when it completes)
 	}
 	r.mu.Lock()
 	r.log = append(r.log, s)
+	r.sink += seen
 	r.mu.Unlock()
 }
 
@@ -166,6 +184,99 @@ func run(c vrt.Case) vrt.Obs {
 }
 
 func attempt(c vrt.Case) (vrt.Obs, map[string]bool) {
+	var p0 params
+	vrt.Params(c, &p0)
+	if p0.ResumeAt > 0 {
+		return attemptResume(p0), map[string]bool{}
+	}
+	return attemptPair(c)
+}
+
+// attemptResume: the station sends two messages to the reference peer; the first is answered with an
+// offset request. Every report must still name the message, lie within [0, compressed size] and the
+// transfer must end with exactly one Done report.
+func attemptResume(p params) vrt.Obs {
+	var o vrt.Obs
+	o.Evals = 1
+	rng := vrt.Rand(p.Seed, "c17resume", p.Index, p.Rep)
+	w := b2fx.BaseWorld(fmt.Sprintf("c17resume-%d-%d", p.ResumeAt, p.Rep), p.Rep%2 == 0)
+	tok := fmt.Sprintf("!%d", p.ResumeAt)
+	if p.Rep%2 == 1 {
+		tok = fmt.Sprintf("A%d", p.ResumeAt)
+	}
+	if err := w.AddLib("RESUME000001", "resumed transfer", vrt.Bytes(rng, p.Size), tok); err != nil {
+		o.Inconclusive = append(o.Inconclusive, err.Error())
+		return o
+	}
+	if err := w.AddLib("RESUME000002", "ordinary transfer", vrt.Bytes(rng, 900), "+"); err != nil {
+		o.Inconclusive = append(o.Inconclusive, err.Error())
+		return o
+	}
+	rec := &recorder{}
+	w.Status = rec
+	w.WriteDelay = [2]time.Duration{time.Duration(p.DelayMS) * time.Millisecond, 0}
+	run := w.Run(false, [2][]vpipe.Edit{})
+	if run.Lib.Err != nil || run.Lib.Panic != nil || run.Res.Err != nil {
+		o.Inconclusive = append(o.Inconclusive, fmt.Sprintf("resume leg: session did not complete: station=%v panic=%v peer=%v complaints=%v", run.Lib.Err, run.Lib.Panic != nil, run.Res.Err, run.Res.Complaints))
+		return o
+	}
+	if run.Res.ResumedTransfers == 0 {
+		o.Inconclusive = append(o.Inconclusive, "resume leg: the peer did not see a resumed transfer")
+		return o
+	}
+	o.Count("resumed_transfers", int64(run.Res.ResumedTransfers))
+	deadline := time.Now().Add(60 * time.Second)
+	for rec.dones() < 2 && time.Now().Before(deadline) {
+		time.Sleep(20 * time.Millisecond)
+	}
+	time.Sleep(300 * time.Millisecond)
+	dones := map[string]int{}
+	after := map[string]bool{}
+	periodic := 0
+	for i, s := range rec.snapshot() {
+		if s.Sending == nil || s.Receiving != nil {
+			o.Violate("status-direction", "resume leg: report #%d does not name exactly the sent proposal", i)
+			continue
+		}
+		mid := s.Sending.MID()
+		o.Count("status_reports_checked", 1)
+		if mid != "RESUME000001" && mid != "RESUME000002" {
+			o.Violate("status-wrong-message", "resume leg: report #%d names %s", i, mid)
+			continue
+		}
+		if s.BytesTotal != s.Sending.CompressedSize() {
+			o.Violate("status-total", "resume leg %s: BytesTotal=%d, compressed size of the proposal is %d", mid, s.BytesTotal, s.Sending.CompressedSize())
+		}
+		if s.BytesTransferred < 0 || s.BytesTransferred > s.BytesTotal {
+			o.Violate("status-bytes-out-of-range", "resume leg %s (answered %s): BytesTransferred=%d outside [0,%d] (done=%v)", mid, tok, s.BytesTransferred, s.BytesTotal, s.Done)
+		}
+		if after[mid] {
+			o.Violate("status-after-done", "resume leg %s: a report follows the Done report", mid)
+		}
+		if s.Done {
+			dones[mid]++
+			after[mid] = true
+		} else {
+			periodic++
+		}
+	}
+	for _, mid := range []string{"RESUME000001", "RESUME000002"} {
+		switch n := dones[mid]; {
+		case n == 1:
+			o.Count("done_reports_exactly_one", 1)
+		case n == 0:
+			o.Inconclusive = append(o.Inconclusive, "resume leg "+mid+": Done report not seen within the 60 s quiescence cap")
+		default:
+			o.Violate("status-done-count", "resume leg %s: %d reports with Done set (expected exactly one)", mid, n)
+		}
+	}
+	o.Count("periodic_reports", int64(periodic))
+	o.Sig("resume %d r%d periodic=%d", p.ResumeAt, p.Rep, periodic)
+	o.Sample = map[string]any{"leg": "resume", "answer": tok, "periodic_reports": periodic, "delay_ms": p.DelayMS}
+	return o
+}
+
+func attemptPair(c vrt.Case) (vrt.Obs, map[string]bool) {
 	missing := map[string]bool{}
 	var p params
 	vrt.Params(c, &p)
